@@ -122,7 +122,43 @@ def _t_append(text):
     return ast.unparse(t) + "\n"
 
 
-TRANSFORMS = {"unparse": _t_unparse, "rename-locals": _t_rename, "commute": _t_commute, "append": _t_append}
+def _t_alias(text):
+    """every method that uses a registry `self._g.attrs["k"]` at least twice and never re-binds it gets a local alias
+    `k_reg = self._g.attrs["k"]` as its first statement and uses the alias from there on"""
+    import copy
+    t = ast.parse(text)
+    for fn in ast.walk(t):
+        if not isinstance(fn, ast.FunctionDef):
+            continue
+        uses, rebound = {}, set()
+        for x in ast.walk(fn):
+            if isinstance(x, ast.Subscript) and isinstance(x.slice, ast.Constant) and isinstance(x.slice.value, str) and isinstance(x.value, ast.Attribute) \
+                    and x.value.attr == "attrs" and isinstance(x.value.value, ast.Attribute) and x.value.value.attr == "_g" \
+                    and isinstance(x.value.value.value, ast.Name) and x.value.value.value.id == "self":
+                if isinstance(x.ctx, ast.Store):
+                    rebound.add(x.slice.value)
+                else:
+                    uses.setdefault(x.slice.value, []).append(x)
+        todo = {k: v for k, v in uses.items() if len(v) >= 2 and k not in rebound and k.isidentifier()}
+        if not todo or fn.name == "__init__":
+            continue
+        ids = {id(n): k for k, v in todo.items() for n in v}
+
+        class Sub(ast.NodeTransformer):
+            def visit_Subscript(self, n):
+                if id(n) in ids:
+                    return ast.copy_location(ast.Name(id=ids[id(n)] + "_reg", ctx=ast.Load()), n)
+                return self.generic_visit(n)
+        first = {k: copy.deepcopy(v[0]) for k, v in todo.items()}
+        Sub().visit(fn)
+        pre = [ast.Assign(targets=[ast.Name(id=k + "_reg", ctx=ast.Store())], value=first[k]) for k in sorted(todo)]
+        doc = 1 if fn.body and isinstance(fn.body[0], ast.Expr) and isinstance(fn.body[0].value, ast.Constant) and isinstance(fn.body[0].value.value, str) else 0
+        fn.body[doc:doc] = pre
+    ast.fix_missing_locations(t)
+    return ast.unparse(t) + "\n"
+
+
+TRANSFORMS = {"unparse": _t_unparse, "rename-locals": _t_rename, "commute": _t_commute, "append": _t_append, "alias": _t_alias}
 
 
 def _run_one(job):
